@@ -1,8 +1,9 @@
-(** C06 - property theorems (statements only; proofs are in C06/Proofs.v).
+(** C06 - property theorems (statements only; proofs are in C06/Proofs*.v).
     [o] ranges over every arithmetic (NumOps instance, including binary64) unless R_ops is named;
     [tr] is the transcendental function of the kernel (exp, or powf(., degree)). *)
-From Coq Require Import List NArith Reals Permutation.
-From LinfaVerif Require Import Common.Num Common.NdSum C06.Model C06.Dy C06.Proofs C06.ProofsViews C06.ProofsPsd C06.ProofsSingle.
+From Coq Require Import List NArith Reals Permutation Floats.
+From Flocq Require Import Core BinarySingleNaN.
+From LinfaVerif Require Import Common.Num Common.NdSum C06.Model C06.Dy C06.Proofs C06.ProofsViews C06.ProofsPsd C06.ProofsSingle C06.ProofsB64 C06.ProofsSparse.
 Import ListNotations.
 
 (** ** kernel matrices *)
@@ -23,6 +24,15 @@ Theorem dense_symmetric : forall tr m (X : list (list R)) i j,
   nth j (nth i (dense R_ops tr m X) []) 0%R = nth i (nth j (dense R_ops tr m X) []) 0%R.
 Proof.
   intros tr m X i j Hi Hj. rewrite !dense_entry_l by assumption. apply kernel_entry_sym_R.
+Qed.
+
+(** (T2) in binary64 the symmetry holds bit for bit: x*y = y*x and (x-y)*(x-y) = (y-x)*(y-x) for the IEEE
+    operations, so the matrix built by the implementation's arithmetic is exactly symmetric *)
+Theorem dense_symmetric_b64 : forall tr m (X : list (list PrimFloat.float)) i j,
+  i < length X -> j < length X ->
+  nth j (nth i (dense B64_ops tr m X) []) 0%float = nth i (nth j (dense B64_ops tr m X) []) 0%float.
+Proof.
+  intros tr m X i j Hi Hj. rewrite !dense_entry_l by assumption. apply kernel_entry_sym_b64.
 Qed.
 
 (** and a Gaussian kernel has unit diagonal *)
@@ -67,6 +77,10 @@ Theorem gaussian_psd_certificate : forall n K L delta,
   (- dyR delta * sumn (fun i => x i * x i) n <= qf n (fun i j => dyR (ent K i j)) x)%R.
 Proof. exact psd_cert_sound'. Qed.
 
+(** the dyadic pair the checker reads off a float is the float's real value *)
+Theorem dyadic_value_of_float : forall x : PrimFloat.float, dyR (dy_of x) = SF2R radix2 (Prim2SF x).
+Proof. exact dy_of_value. Qed.
+
 (** ** views *)
 
 (** the upper triangle lists the entries (i,j), i < j < n, row by row *)
@@ -105,6 +119,24 @@ Proof.
   - apply s_dot_dense; assumption.
 Qed.
 
+(** the sparse kernel built by the model from duplicate-free in-range neighbour lists is such a
+    well-formed symmetric CSR matrix: rows strictly sorted, indices below n, value (i,j) = value (j,i);
+    so its reported sums and products are those of its dense form *)
+Theorem sparse_kernel_views : forall tr m (X : list (list R)) nbrs (B : list (list R)) nc,
+  length nbrs = length X -> nbrs_ok nbrs -> length B = length X ->
+  let n := length X in
+  let rows := sparse_rows R_ops tr m X (adjacency nbrs) in
+  (forall i, i < n -> ssorted (nth i (adjacency nbrs) [])) /\
+  s_sum R_ops n rows = d_sum R_ops (s_to_dense R_ops n rows) /\
+  s_dot R_ops rows B nc = d_dot R_ops (s_to_dense R_ops n rows) B nc.
+Proof.
+  intros tr m X nbrs B nc L OK LB n rows.
+  destruct (sparse_rows_wellformed tr m X nbrs L OK) as [W S]. split; [|split].
+  - intros i Hi. apply adjacency_row_ok; [exact OK|]. rewrite L. exact Hi.
+  - apply s_sum_dense; assumption.
+  - apply s_dot_dense; assumption.
+Qed.
+
 (** ** agglomerative clustering: replay of the dendrogram *)
 
 (** whatever the criterion and the steps, a labelling that is returned numbers all n samples with
@@ -117,6 +149,11 @@ Theorem replay_partition : forall F (o : NumOps F) c (steps : list (@step F)) n 
     (forall i j, i < n -> j < n -> (nth i L 0 = nth j L 0 <-> exists p, In p cl /\ In i (snd p) /\ In j (snd p))) /\
     Permutation (concat (map snd cl)) (seq 0 n).
 Proof. exact (@hier_partition). Qed.
+
+(** on a well-formed dendrogram the replay never looks up a missing cluster (no panic), whatever the criterion *)
+Theorem replay_total : forall F (o : NumOps F) c (steps : list (@step F)) n,
+  wf_steps (seq 0 n) n steps = true -> exists L, hier o c steps n = Some L.
+Proof. exact (@wf_hier_some). Qed.
 
 (** on a complete well-formed dendrogram (n-1 steps) a requested count k >= 1 yields exactly min(k, n) clusters *)
 Theorem replay_count : forall F (o : NumOps F) (steps : list (@step F)) n k,
